@@ -77,12 +77,18 @@ func init() {
 		o.BindKinds = true
 		chain := o
 		chain.Shape = "requirechain"
+		grow := func(r *Rng) (string, *HistInput) {
+			g := chain
+			g.BindKinds = false
+			return "setschema-growth", genGrowth(r, g)
+		}
 		return runHistCases(c, "C05", "EvalC05",
-			[]func(r *Rng) (string, *HistInput){histGen("after-require", o), histGen("requirechain", chain)},
+			[]func(r *Rng) (string, *HistInput){histGen("after-require", o), histGen("requirechain", chain), grow, histGen("after-require", o)},
 			500, 20000,
 			"schemas with After/Require graphs (cyclic and acyclic), 1-3 handler bindings (map bindings), vetoes 0-25%; "+
 				"the handler log (name, binding, Machine.ActiveStates and Machine.Time inside the handler, return value) of "+
-				"every transition is judged; plus a detach stream: 2-4 bindings of which some are detached by a handler "+
+				"every transition is judged; a quarter of the cases grow the schema with SetSchema in mid-history (new states "+
+				"with Require chains, activated together with what they Require); plus a detach stream: 2-4 bindings of which some are detached by a handler "+
 				"while the event is being dispatched; distinct by (input, observation); non-trivial = at least one transition", nil,
 			c05Opts(c))
 	})
